@@ -27,8 +27,12 @@ Local Notation lessH := (Heap.lessH A d lt).
 Local Notation swapH := (Heap.swapH A d).
 Local Notation swapN := (Heap.swap nat 0).
 
-Definition valof (st : store) (e : nat) : A := evalue (getE st e).
-Definition ltE (val : nat -> A) (x y : nat) : bool := lt (val x) (val y).
+Local Notation valof := (Heap.valof A d).
+Local Notation ltE := (Heap.ltE A lt).
+Local Notation Hd := (Heap.Hd A d).
+Local Notation free_ok := (Heap.free_ok A d).
+Local Notation HS := (Heap.HS A d).
+Local Notation Ord := (Heap.Ord A d lt).
 
 (* ---- the store ---- *)
 Lemma getE_upd (st : store) e r x : getE (upd st e r) x = if (x =? e) && (e <? length st) then r else getE st x.
@@ -87,11 +91,6 @@ Lemma evalue_set_val st e v x : evalue (getE (set_val st e v) x) = if (x =? e) &
 Proof. unfold Heap.set_val. rewrite getE_upd. destruct ((x =? e) && (e <? length st)); reflexivity. Qed.
 
 (* ---- every slot's element knows its own position and its heap; no element sits in two slots ---- *)
-Definition Hd (h : Z) (t : hst) : Prop :=
-  NoDup (fst t) /\
-  forall k, k < length (fst t) ->
-    nth k (fst t) 0 < length (snd t) /\ eidx (getE (snd t) (nth k (fst t) 0)) = Z.of_nat k /\ eown (getE (snd t) (nth k (fst t) 0)) = h.
-
 Lemma NoDup_nth_inj (s : list nat) i j : NoDup s -> i < length s -> j < length s -> nth i s 0 = nth j s 0 -> i = j.
 Proof. intros H Hi Hj E. apply (proj1 (NoDup_nth s 0) H i j Hi Hj E). Qed.
 Lemma Hd_in h t e : Hd h t -> In e (fst t) ->
@@ -119,7 +118,7 @@ Lemma lessH_ok h val t0 (t : hst) a b : SInv h val t0 t -> a < length (fst t) ->
   lessH t (Z.of_nat a) (Z.of_nat b) = Ok (ltE val (nth a (fst t) 0) (nth b (fst t) 0)).
 Proof.
   intros (_ & Hv & _) Ha Hb. unfold Heap.lessH. rewrite (nthZ_ok 0), (nthZ_ok 0) by auto. cbn [bind].
-  unfold ltE. rewrite <- !Hv. reflexivity.
+  unfold Heap.ltE. rewrite <- !Hv. reflexivity.
 Qed.
 Lemma swapH_eval (t : hst) a b : a < length (fst t) -> b < length (fst t) ->
   swapH t (Z.of_nat a) (Z.of_nat b) =
@@ -135,7 +134,7 @@ Proof.
   set (x := nth a arr 0) in *. set (y := nth b arr 0) in *.
   destruct (Hix a Ha) as (Xa & Xi & Xo). destruct (Hix b Hb) as (Ya & Yi & Yo). fold x in Xa, Xi, Xo. fold y in Ya, Yi, Yo.
   assert (Pw : Permutation (swapN arr a b) arr) by (apply upd_nth_perm_swap; auto).
-  unfold SInv, Hd. cbn [fst snd]. split; [|split; [|split; [|split; [|split]]]].
+  unfold SInv, Heap.Hd. cbn [fst snd]. split; [|split; [|split; [|split; [|split]]]].
   - split; [eapply Permutation_NoDup; [apply Permutation_sym; exact Pw|exact Hnd]|].
     rewrite swap_length. intros k Hk. rewrite nth_swap by auto. rewrite !set_idx_length.
     rewrite !eidx_set_idx, !eown_set_idx, set_idx_length. fold x. fold y.
@@ -152,7 +151,7 @@ Proof.
         destruct (Nat.eqb_spec (nth k arr 0) y) as [E|_].
         { exfalso. apply Hkb. apply (NoDup_nth_inj arr k b); auto. }
         cbn [andb]. exact Ki.
-  - intros z. unfold valof. rewrite !evalue_set_idx. apply Hv.
+  - intros z. unfold Heap.valof. rewrite !evalue_set_idx. apply Hv.
   - etransitivity; eauto.
   - rewrite !set_idx_length. exact Hl.
   - intros e He. assert (He' : ~ In e arr) by (intros H; apply He; eapply Permutation_in; eauto).
@@ -194,12 +193,6 @@ Qed.
 
 (* ------------------------------------------------------------------ one heap next to the other one *)
 Local Notation hokN := (Heap.heap_ok nat 0).
-Definition free_ok (mine other : list nat) (st : store) : Prop :=
-  forall e, e < length st -> ~ In e mine -> ~ In e other -> eidx (getE st e) = (-1)%Z /\ eown (getE st e) = (-1)%Z.
-(* structure: handles of both heaps intact, every element outside both reports index -1, owner nil *)
-Definition HS (h : Z) (mine other : list nat) (st : store) : Prop :=
-  Hd h (mine, st) /\ Hd (1 - h) (other, st) /\ free_ok mine other st.
-
 Lemma HS_disjoint h mine other st e : HS h mine other st -> In e mine -> In e other -> False.
 Proof.
   intros (H1 & H2 & _) Hm Ho. destruct (Hd_in h _ e H1 Hm) as (_ & E1 & _). destruct (Hd_in _ _ e H2 Ho) as (_ & E2 & _).
@@ -282,9 +275,9 @@ Proof.
 Qed.
 
 Lemma valof_set_idx st e k x : valof (set_idx st e k) x = valof st x.
-Proof. unfold valof. apply evalue_set_idx. Qed.
+Proof. unfold Heap.valof. apply evalue_set_idx. Qed.
 Lemma valof_set_own st e o x : valof (set_own st e o) x = valof st x.
-Proof. unfold valof. apply evalue_set_own. Qed.
+Proof. unfold Heap.valof. apply evalue_set_own. Qed.
 
 (* ------------------------------------------------------------------ the operations of heap.go *)
 Hypothesis le_trans : forall a b c, Heap.le A lt a b -> Heap.le A lt b c -> Heap.le A lt a c.
@@ -292,10 +285,7 @@ Hypothesis lt_asym : forall a b, lt a b = true -> lt b a = false.
 Lemma ltE_trans val : forall a b c, Heap.le nat (ltE val) a b -> Heap.le nat (ltE val) b c -> Heap.le nat (ltE val) a c.
 Proof. unfold Heap.le, ltE. intros a b c. apply le_trans. Qed.
 Lemma ltE_asym val : forall a b, ltE val a b = true -> ltE val b a = false.
-Proof. unfold ltE. intros a b. apply lt_asym. Qed.
-
-Definition Ord (mine other : list nat) (st : store) : Prop :=
-  hokN (ltE (valof st)) mine (length mine) /\ hokN (ltE (valof st)) other (length other).
+Proof. unfold Heap.ltE. intros a b. apply lt_asym. Qed.
 
 Local Notation hp_pushelem := (Heap.hp_pushelem A d lt).
 Local Notation hp_push := (Heap.hp_push A d lt).
@@ -357,7 +347,7 @@ Proof.
   - destruct (Hd_in _ _ _ H2 Hin) as (K & _). cbn [snd] in K. lia.
 Qed.
 Lemma valof_app_old (st : store) r x : x < length st -> valof (st ++ [r]) x = valof st x.
-Proof. intros H. unfold valof. rewrite getE_app_old by exact H. reflexivity. Qed.
+Proof. intros H. unfold Heap.valof. rewrite getE_app_old by exact H. reflexivity. Qed.
 
 Lemma hok_ext_on (v1 v2 : nat -> A) s : (forall x, In x s -> v1 x = v2 x) -> hokN (ltE v1) s (length s) -> hokN (ltE v2) s (length s).
 Proof.
@@ -396,12 +386,12 @@ Proof.
   - exists mine', st'. split; [exact E|]. split; [exact HS'|]. split; [exact O'|]. split; [exact P|].
     unfold st0 in L. rewrite app_length in L. cbn [length] in L. split; [lia|].
     split; [intros x Hx; rewrite V; apply Vold; exact Hx|].
-    assert (Vn : valof st' (length st) = v) by (rewrite V; unfold valof, st0; rewrite getE_app_new; reflexivity).
+    assert (Vn : valof st' (length st) = v) by (rewrite V; unfold Heap.valof, st0; rewrite getE_app_new; reflexivity).
     split; [exact Vn|].
     apply (nth_ext _ _ d d); [rewrite app_length, !map_length; cbn [length]; lia|].
     intros k Hk. rewrite map_length in Hk.
     assert (Ek : forall (l : store) j, j < length l -> nth j (map evalue l) d = valof l j).
-    { intros l j Hj. unfold valof, Heap.getE. rewrite (nth_indep _ d (evalue (Heap.dummyE A d))) by (rewrite map_length; exact Hj). apply map_nth. }
+    { intros l j Hj. unfold Heap.valof, Heap.getE. rewrite (nth_indep _ d (evalue (Heap.dummyE A d))) by (rewrite map_length; exact Hj). apply map_nth. }
     rewrite Ek by exact Hk. destruct (Nat.eq_dec k (length st)) as [->|Hne].
     + rewrite app_nth2; rewrite map_length; [|lia]. rewrite Nat.sub_diag. exact Vn.
     + rewrite app_nth1 by (rewrite map_length; lia). rewrite Ek by lia. rewrite V. apply Vold. lia.
@@ -627,7 +617,7 @@ Proof.
         rewrite F1 by exact Hin. apply H3; auto.
       + exfalso. apply Hm. unfold arr. apply in_seq. lia. }
   assert (V2 : forall x, x < length st -> valof st2 x = valof st x).
-  { intros x Hx. unfold valof. rewrite Gold by exact Hx. apply V1. }
+  { intros x Hx. unfold Heap.valof. rewrite Gold by exact Hx. apply V1. }
   destruct (buildH_ok h (valof st2) (arr, st2) (arr, st2)) as (t' & E & F & I); [apply SInv_refl; apply HS2|].
   rewrite E. destruct t' as [mine' st']. cbn [fst snd] in *. exists mine', st'. split; [reflexivity|].
   pose proof (HS_from_SInv h arr other st2 (mine', st') HS2 I) as HS3. cbn [fst snd] in HS3.
@@ -640,10 +630,10 @@ Proof.
   - intros x Hx. rewrite Hv. apply V2. exact Hx.
   - apply (nth_ext _ _ d d); [rewrite app_length, !map_length; lia|]. intros k Hk. rewrite map_length in Hk.
     assert (Ek : forall (l : store) j, j < length l -> nth j (map evalue l) d = valof l j).
-    { intros l j Hj. unfold valof, Heap.getE. rewrite (nth_indep _ d (evalue (Heap.dummyE A d))) by (rewrite map_length; exact Hj). apply map_nth. }
+    { intros l j Hj. unfold Heap.valof, Heap.getE. rewrite (nth_indep _ d (evalue (Heap.dummyE A d))) by (rewrite map_length; exact Hj). apply map_nth. }
     rewrite Ek by exact Hk. rewrite Hv. destruct (Nat.lt_ge_cases k (length st)) as [Hlt|Hge].
     + rewrite app_nth1 by (rewrite map_length; exact Hlt). rewrite Ek by exact Hlt. apply V2. exact Hlt.
-    + rewrite app_nth2; rewrite map_length; [|exact Hge]. unfold valof.
+    + rewrite app_nth2; rewrite map_length; [|exact Hge]. unfold Heap.valof.
       replace k with (length st + (k - length st)) at 1 by lia. rewrite Gnew by lia. reflexivity.
   - intros x Hx. destruct (Hd_in _ _ _ H1 Hx) as (K & _). cbn [snd] in K.
     assert (Hna : ~ In x arr) by (unfold arr; rewrite in_seq; lia).
